@@ -124,6 +124,18 @@ def c03(prog, obs, impl):
                 elif newvol > d['max'] * (1 + margin) and (o['ok'] or o['exc'] != 'ValueError'):
                     fails.append((i, "transfer exceeding the destination's capacity " +
                                   ('was accepted' if o['ok'] else 'raised ' + o['exc'])))
+        # a region of a plate as the source: every addressed well must be able to give q (to one container or well: each gives q;
+        # to a region of equal shape: each gives q; one well to n wells: it gives n * q)
+        if op['op'] == 'transfer' and 'p' in op['src'] and op['src']['p'] in dumps:
+            sp = dumps[op['src']['p']]
+            cs = [sp['wells'][a * sp['cols'] + b_] for a, b_ in dsl.region_cells(op['src']['r'], sp['cols'])]
+            q, b = dsl.qty_val(op['q']), op['q']['b']
+            nd = 1 if 'c' in op['dst'] else len(dsl.region_cells(op['dst']['r'], 0))
+            need = q * (nd if len(cs) == 1 else 1)
+            short = [j for j, c in enumerate(cs) if need > measure(subs, c, b) * (1 + F(1, 10**6)) + F(1, 10**15)]
+            if q > 0 and short and (o['ok'] or o['exc'] != 'ValueError'):
+                fails.append((i, f"well {short[0]} of the source region holds {float(measure(subs, cs[short[0]], b))!r} {b}, {float(need)!r} were asked of it: the transfer "
+                                 f"{'was accepted' if o['ok'] else 'raised ' + o['exc'] + ' instead of ValueError'}"))
         if op['op'] == 'fill' and 'c' in op['t'] and op['t']['c'] in dumps:
             c = dumps[op['t']['c']]
             q, b = dsl.qty_val(op['q']), op['q']['b']
@@ -352,7 +364,15 @@ def c07(prog, obs, impl):
     """each addressed well = the stand-alone Container operation on that well's contents; every other well identical"""
     from pyplate import Container
     fails = []
+    def shape(r):      # a rectangle has a shape (rows, columns); wells listed one by one form a sequence
+        return ('list', len(r['list'])) if 'list' in r else (len(r['rect'][0]), len(r['rect'][1]))
     for i, (op, o) in enumerate(zip(prog['ops'], obs)):
+        if o['ok'] and op['op'] == 'transfer' and 'p' in op['src'] and 'p' in op['dst']:
+            ss, sd = shape(op['src']['r']), shape(op['dst']['r'])
+            ns, nd = len(dsl.region_cells(op['src']['r'], 0)), len(dsl.region_cells(op['dst']['r'], 0))
+            if ns > 1 and nd > 1 and ss != sd:
+                fails.append((i, f"a transfer from a region of shape {ss} into a region of shape {sd} (neither is a single well, the shapes differ) was accepted"))
+                continue
         if not o['ok'] or op['op'] not in ('transfer', 'remove', 'fill'):
             continue
         out = dict((v, impl.env.get(v)) for v, _ in o['out'])
